@@ -201,6 +201,17 @@ def finish(prop, tier, seed, level, results, rule, t0, monitors, extra_cov=None,
             continue
         f = match_finding(v, findings)
         if f is not None:
+            if f["id"] not in known_hit and os.environ.get("VERIF_DUMP_KNOWN"):
+                # maintenance: write one witness replay per known finding (never part of a normal run)
+                body = dict(v)
+                body.pop("confirmed", None)
+                wd = os.path.join(VERIF, "findings")
+                os.makedirs(wd, exist_ok=True)
+                with open(os.path.join(wd, "%s.json" % f["id"]), "w") as fh:
+                    json.dump({"property": v["property"], "kind": v["kind"], "sig": v.get("sig", {}),
+                               "detail": v.get("detail"), "scenario": v["scenario"], "cfg": v.get("cfg"),
+                               "history": v["history"], "pair": v.get("pair"), "monitors": v.get("monitors")},
+                              fh, indent=1, sort_keys=True, default=repr)
             known_hit.setdefault(f["id"], [f, 0])
             known_hit[f["id"]][1] += 1
         else:
